@@ -301,6 +301,9 @@ fn render_part(c: &mut Cursor, pre: &mut String, base: usize, bits: u32, tags: &
             if fr.len() > 18 {
                 tags.push("frac>17digits".into());
             }
+            if fr.len() == 18 && fr.ends_with('5') {
+                tags.push("frac=17digits-ending-5".into());
+            }
         }
         "P" => {
             let fr = c.next();
@@ -942,6 +945,79 @@ impl Property for C06 {
             let bits = if r.chance(1, 20) { 8 + r.below(2) } else { r.below(8) };
             v.push(format!("dim {p} r{bits}"));
         }
+        // ---- rounding-boundary fractions: odd multiples of half a scaled point, (2k+1)/2^17, have
+        // exactly 17 decimal digits (ending in 5) and round up; every shorter prefix rounds down. So the
+        // 17th digit (and only digits up to the 17th, TeX §452) decides. For each k: the exact expansion,
+        // its 15/16-digit prefixes, the last digit ±1, and extensions to 18..20 digits, through every path
+        // that scans a decimal fraction.
+        {
+            let mut r = rng.fork();
+            const FIVE17: u128 = 762_939_453_125; // 10^17 / 2^17
+            let ks: Vec<u64> = if t {
+                (0..65536).collect()
+            } else {
+                let mut ks: Vec<u64> = (0..65536u64).step_by(61).collect();
+                ks.extend([0, 1, 2, 3, 4, 5, 13848, 32767, 32768, 65533, 65534, 65535]);
+                for _ in 0..200 {
+                    ks.push(r.below(65536));
+                }
+                ks
+            };
+            let paths = [
+                "pt", "in", "pc", "bp", "cm", "mm", "dd", "cc", "truept", "truecm", "em", "ex", "point-pt", "point-in",
+                "fil-plus", "fill-plus", "filll-minus", "fil-minus", "vd1", "vd3", "vdmax", "vdneg", "vi", "ip-pt", "ip-cc", "stdlib-pt",
+            ];
+            let mut pi = 0usize;
+            let mut emit = |v: &mut Vec<String>, fr: &str, path: &str, r: &mut Rng| {
+                let sg = *r.pick(&["_", "_", "m"]);
+                let c = match path {
+                    "truept" => format!("dim {sg} K 10 0 .{fr} pt r2"),
+                    "truecm" => format!("dim {sg} K 10 0 .{fr} cm r2"),
+                    "point-pt" => format!("dim {sg} P {fr} pt r0"),
+                    "point-in" => format!("dim {sg} P {fr} in r1"),
+                    "fil-plus" => format!("glue _ K 10 0 - pt plus {sg} K 10 0 .{fr} fil0 r0"),
+                    "fill-plus" => format!("glue _ K 10 1 - pt plus {sg} P {fr} fil1 r0"),
+                    "filll-minus" => format!("glue _ K 10 0 - pt minus {sg} K 10 7 .{fr} fil2 r0"),
+                    "fil-minus" => format!("glue _ K 10 0 - pt plus _ K 10 1 .{fr} pt minus {sg} K 10 0 .{fr} fil0 r4"),
+                    "vd1" => format!("dim {sg} K 10 0 .{fr} vd 65536 r0"),
+                    "vd3" => format!("dim {sg} K 10 2 .{fr} vd 196608 r0"),
+                    "vdmax" => format!("dim {sg} K 10 0 .{fr} vd 1073741823 r0"),
+                    "vdneg" => format!("dim {sg} P {fr} vd -8388608 r0"),
+                    "vi" => format!("dim {sg} K 10 0 .{fr} vi 131072 r0"),
+                    "ip-pt" => format!("dim {sg} K 10 16383 .{fr} pt r0"),
+                    "ip-cc" => format!("dim {sg} K 10 1276 .{fr} cc r1"),
+                    "stdlib-pt" => format!("dim {sg} K 10 0 .{fr} pt r8"),
+                    u => format!("dim {sg} K 10 0 .{fr} {u} r0"),
+                };
+                v.push(c);
+            };
+            for (n, k) in ks.iter().enumerate() {
+                let exact = format!("{:017}", (2 * *k as u128 + 1) * FIVE17);
+                debug_assert!(exact.len() == 17 && exact.ends_with('5'));
+                let mut variants: Vec<String> = vec![exact.clone()];
+                // all variants for a stride of k (every k in quick); the exact form for every k
+                if !t || n % 16 == 0 {
+                    variants.push(exact[..16].to_string());
+                    variants.push(exact[..15].to_string());
+                    variants.push(format!("{}4", &exact[..16]));
+                    variants.push(format!("{}6", &exact[..16]));
+                    variants.push(format!("{exact}0"));
+                    variants.push(format!("{exact}000"));
+                    variants.push(format!("{}4999", &exact[..16]));
+                    variants.push(format!("{exact}{}", r.below(1000)));
+                    variants.push(format!("{}{:04}", &exact[..16], r.below(10000)));
+                }
+                for fr in &variants {
+                    // two paths per string, rotating so that every path meets every kind of variant
+                    for _ in 0..2 {
+                        emit(&mut v, fr, paths[pi % paths.len()], &mut r);
+                        pi += 1;
+                    }
+                    pi += 1;
+                }
+            }
+        }
+
         // boundary grid: internal units, integer parts × values
         let bvals: [i64; 13] = [0, 1, -1, 65536, -65536, 32768, MAXD, -MAXD, MAXD + 1, IMAX, IMIN, IMIN + 1, 786432];
         for ip in [0i64, 1, 2, 16383, 16384, 65536, MAXD, IMAX] {
